@@ -74,7 +74,7 @@ func c41Harnesses(c *lib.Ctx) []*harness {
 		idHarness("seq-2x2", 2, 2, false, false, []int{0, 1, 2, -1}),
 		idHarness("seq-2x2-firstuse", 2, 2, false, true, []int{0, 1, 2, lib.Pick(c, 4, -1)}),
 		idHarness("par-2x2", 2, 2, true, false, []int{0, 1, 2, -1}),
-		idHarness("seq-3x1-firstuse", 3, 1, false, true, []int{0, 1, 2, lib.Pick(c, 3, -1)}),
+		idHarness("seq-3x1-firstuse", 3, 1, false, true, []int{0, 1, 2, lib.Pick(c, 3, 4)}),
 		idHarness("seq-3x2", 3, 2, false, false, []int{0, 1, 2, deep}),
 		idHarness("par-3x2", 3, 2, true, false, []int{0, 1, 2, deep}),
 	}
